@@ -493,6 +493,8 @@ def run(ctx):
     collect(res, results, jobs)
     n = res.stats.get('history-calls', 0)
     res.facet('oracle_history')['cases'] = n
+    n_items = sum(res.stats.get(k, 0) for k in ('row-by-index', 'row-by-name', 'row-by-reversed'))
+    res.hyp['selected line indices are non-negative (hypothesis hnn of history_table_eq_cells): integer row keys are drawn from 0..nrows-1'] = [n_items, n_items]
     if ctx.model_ok:
         correspond(ctx, res, jobs, results)
     return res
